@@ -1,6 +1,10 @@
 //! C17 — Keccak-256 (original padding) and hash-to-scalar: implementation results on the real library.
 //! Ops: `c17_keccak <hex msg>` -> digest hex; `c17_hs <hex 32-byte digest>` -> 32-byte LE scalar hex;
-//!      `c17_hash_to_scalar <hex msg>` -> 32-byte LE scalar hex.
+//!      `c17_hash_to_scalar <hex msg>` -> 32-byte LE scalar hex;
+//!      `c17_trait_hs <hex public key>` -> `<hash> <scalar>` through the provided method `Hashable::hash_to_scalar`;
+//!      `c17_trait_hs_tx <hex tx>` -> `ok <tx hash> <tx scalar> <prefix hash> <prefix scalar> <sig-base hash|-> <sig-base scalar|->`
+//!        (the provided method on the three other implementors `Transaction`, `TransactionPrefix`, `RctSigBase`) or `err`;
+//!      `c17_hs_ctor <slice|hex|hex0x|str|dec|from> <hex 32-byte digest>` -> scalar hex of a `Hash` built through another constructor.
 use crate::common::*;
 use curve25519_dalek::scalar::Scalar;
 use monero::cryptonote::hash::{keccak_256, Hash};
@@ -57,8 +61,62 @@ pub fn exec(t: &[&str]) -> Option<String> {
         // the provided method `Hashable::hash_to_scalar` on a type implementing `Hashable` (here PublicKey): Hs over the
         // value's hash input, i.e. LE(x.hash()) mod l
         ["c17_trait_hs", h] => Some(match monero::PublicKey::from_slice(&unhex(h)) { Ok(k) => { use monero::cryptonote::hash::Hashable; format!("{} {}", hex(&k.hash().0), hex(&k.hash_to_scalar().to_bytes())) } Err(_) => "err".into() }),
+        ["c17_trait_hs_tx", h] => Some(trait_tx_line(&unhex(h))),
+        ["c17_hs_ctor", k, h] => Some(hs_ctor_line(k, &unhex(h))),
         _ => None,
     }
+}
+
+/// `Hashable::hash_to_scalar` (provided method) on the implementors other than `PublicKey`, next to `hash()` of the same value
+fn trait_tx_line(b: &[u8]) -> String {
+    use monero::cryptonote::hash::Hashable;
+    let tx = match monero::consensus::encode::deserialize::<monero::Transaction>(b) { Ok(t) => t, Err(_) => return "err".into() };
+    let (bh, bs) = match &tx.rct_signatures.sig { Some(sb) => (hex(&sb.hash().0), hex(&sb.hash_to_scalar().to_bytes())), None => ("-".into(), "-".into()) };
+    format!("ok {} {} {} {} {} {}", hex(&tx.hash().0), hex(&tx.hash_to_scalar().to_bytes()), hex(&tx.prefix.hash().0), hex(&tx.prefix.hash_to_scalar().to_bytes()), bh, bs)
+}
+/// `as_scalar` of a `Hash` that was NOT built through the public tuple field
+fn hs_ctor_line(kind: &str, d: &[u8]) -> String {
+    use std::str::FromStr;
+    if d.len() != 32 { return "err".into(); }
+    let h: Hash = match kind {
+        "slice" => Hash::from_slice(d),
+        "hex" => match <Hash as hex::FromHex>::from_hex(hex::encode(d)) { Ok(h) => h, Err(_) => return "err".into() },
+        "hex0x" => match <Hash as hex::FromHex>::from_hex(format!("0x{}", hex::encode(d))) { Ok(h) => h, Err(_) => return "err".into() },
+        "str" => match Hash::from_str(&hex::encode(d)) { Ok(h) => h, Err(_) => return "err".into() },
+        "dec" => match monero::consensus::encode::deserialize::<Hash>(d) { Ok(h) => h, Err(_) => return "err".into() },
+        "from" => { let mut a = [0u8; 32]; a.copy_from_slice(d); Hash::from(a) }
+        _ => return "bad-op".into(),
+    };
+    hex(&h.as_scalar().to_bytes())
+}
+
+/// Keccak-256 (original `pad10*1` with first pad byte 0x01) written from the Keccak reference text: state as a 5x5 matrix of lanes,
+/// round constants from the degree-8 LFSR, rho offsets from (t+1)(t+2)/2 and the pi walk (x,y) -> (y, 2x+3y) — no constant tables,
+/// no code or data shared with tiny-keccak (the crate under the library) nor with the Lean reference (which uses tables).
+pub fn keccak_ind(msg: &[u8]) -> [u8; 32] {
+    fn lfsr(s: &mut u8) -> bool { let r = *s & 1 != 0; if *s & 0x80 != 0 { *s = (*s << 1) ^ 0x71 } else { *s <<= 1 } r }
+    fn permute(a: &mut [[u64; 5]; 5]) {
+        let mut l = 1u8;
+        for _ in 0..24 {
+            let mut c = [0u64; 5];
+            for x in 0..5 { c[x] = a[x][0] ^ a[x][1] ^ a[x][2] ^ a[x][3] ^ a[x][4]; }
+            for x in 0..5 { let d = c[(x + 4) % 5] ^ c[(x + 1) % 5].rotate_left(1); for y in 0..5 { a[x][y] ^= d; } }
+            let (mut x, mut y) = (1usize, 0usize); let mut cur = a[x][y];
+            for t in 0..24u32 { let r = ((t + 1) * (t + 2) / 2) % 64; let ny = (2 * x + 3 * y) % 5; x = y; y = ny; let tmp = a[x][y]; a[x][y] = cur.rotate_left(r); cur = tmp; }
+            for y in 0..5 { let row = [a[0][y], a[1][y], a[2][y], a[3][y], a[4][y]]; for x in 0..5 { a[x][y] = row[x] ^ (!row[(x + 1) % 5] & row[(x + 2) % 5]); } }
+            for j in 0..7u32 { if lfsr(&mut l) { a[0][0] ^= 1u64 << ((1u32 << j) - 1); } }
+        }
+    }
+    let mut a = [[0u64; 5]; 5];
+    let mut absorb = |blk: &[u8], a: &mut [[u64; 5]; 5]| { for (i, b) in blk.iter().enumerate() { let lane = i / 8; a[lane % 5][lane / 5] ^= (*b as u64) << (8 * (i % 8)); } permute(a); };
+    let full = msg.len() / 136 * 136;
+    for blk in msg[..full].chunks(136) { absorb(blk, &mut a); }
+    let mut last = [0u8; 136]; let r = msg.len() - full;
+    last[..r].copy_from_slice(&msg[full..]); last[r] ^= 0x01; last[135] ^= 0x80;
+    absorb(&last, &mut a);
+    let mut out = [0u8; 32];
+    for i in 0..32 { let lane = i / 8; out[i] = (a[lane % 5][lane / 5] >> (8 * (i % 8))) as u8; }
+    out
 }
 
 fn tiny(msg: &[u8]) -> [u8; 32] {
@@ -74,6 +132,8 @@ fn msg_case(o: &mut Out, msg: &[u8], fam: &str, with_scalar: bool) {
     let got = keccak_256(msg);
     let want = tiny(msg);
     o.direct(got == want, "c17: keccak_256(msg) == tiny_keccak v256 fed in two pieces", hex(msg), hex(&got), hex(&want));
+    let ind = keccak_ind(msg);
+    o.direct(got == ind, "c17: keccak_256(msg) == Keccak-256 written from the specification (LFSR round constants, rule-derived rho/pi; no tiny-keccak)", if msg.len() > 4096 { format!("c17_keccak {}", hex(msg)) } else { hex(msg) }, hex(&got), hex(&ind));
     o.op(format!("c17_keccak {}", hex(msg)), true);
     if with_scalar {
         let s = Hash::hash_to_scalar(msg).to_bytes();
@@ -140,8 +200,115 @@ pub fn run(o: &mut Out, tier: &str, seed: u64) {
         match rng.below(4) { 0 => { d[31] &= 0x1f; } 1 => { d[31] = 0x10; for i in 16..31 { d[i] = 0; } } _ => {} }
         hs_case(o, &d, "random");
     }
+    // (4b) the window just above l: l, l+1, ..., then l + 2^k, up to 2^252 + 2^128 (a reduction that only looks at the top bits,
+    // or subtracts l only when a coarse comparison says so, goes wrong exactly here); every multiple of l; every power of two;
+    // every single-byte boundary pattern of a 32-byte string
+    {
+        let p252 = le_pow2(252); let p128 = le_pow2(128);
+        let top = le_add(&p252, &p128); // 2^252 + 2^128
+        let mut w: Vec<([u8; 32], &str)> = vec![];
+        let n_consec = if thorough { 2048u64 } else { 256 };
+        for i in 0..=n_consec { w.push((le_add(&l, &le_small(i)), "above_l.consecutive")); }
+        for i in 1..=16u64 { w.push((le_sub(&l, &le_small(i)), "below_l.consecutive")); }
+        for k in 0..=127usize { let b = le_pow2(k); w.push((le_add(&l, &b), "above_l.pow2")); w.push((le_sub(&le_add(&l, &b), &one), "above_l.pow2")); w.push((le_sub(&l, &b), "below_l.pow2")); }
+        for i in 0..=4u64 { w.push((le_sub(&top, &le_small(i)), "top_of_window")); w.push((le_add(&top, &le_small(i)), "top_of_window")); }
+        // 2^252 + x for x a power of two / all-ones below 2^128 (both sides of l - 2^252, which is about 2^124.6)
+        for k in 0..=128usize { let b = le_pow2(k); w.push((le_add(&p252, &b), "p252_plus")); w.push((le_add(&p252, &le_sub(&b, &one)), "p252_plus")); }
+        // uniformly random members of [l, 2^252 + 2^128]: 2^252 + a random 128-bit number, kept when >= l
+        let n_win = if thorough { 20_000 } else { 400 };
+        let mut k = 0; while k < n_win { let mut d = [0u8; 32]; for b in d[..16].iter_mut() { *b = rng.byte(); } if rng.chance(1, 3) { d[15] |= 0xc0; } d[31] = 0x10; if le_ge(&d, &l) { w.push((d, "above_l.random")); k += 1; } }
+        // k*l - 1, k*l, k*l + 1 for every multiple below 2^256, and the same shifted into the window (k*l + small)
+        { let mut a = [0u8; 32]; for _ in 1..=15 { a = le_add(&a, &l); w.push((le_sub(&a, &one), "multiple_of_l")); w.push((a, "multiple_of_l")); w.push((le_add(&a, &one), "multiple_of_l")); w.push((le_add(&a, &le_small(rng.next())), "multiple_of_l")); } }
+        // all powers of two with their neighbours
+        for k in 0..=255usize { let b = le_pow2(k); w.push((le_sub(&b, &one), "pow2")); w.push((b, "pow2")); w.push((le_add(&b, &one), "pow2")); }
+        // single-byte boundary patterns: one byte set in an all-zero / all-ones string; runs of 0xff from either end
+        for i in 0..32usize { for v in [0x01u8, 0x0f, 0x10, 0x7f, 0x80, 0xff] { let mut a = [0u8; 32]; a[i] = v; w.push((a, "byte_boundary")); let mut b = [0xffu8; 32]; b[i] = !v; w.push((b, "byte_boundary")); }
+            let mut lo = [0u8; 32]; for x in lo[..=i].iter_mut() { *x = 0xff; } w.push((lo, "ff_run")); let mut hi = [0u8; 32]; for x in hi[i..].iter_mut() { *x = 0xff; } w.push((hi, "ff_run")); }
+        // l with one byte replaced by a boundary value (a comparison with l that skips a limb)
+        for i in 0..32usize { for v in [0x00u8, 0xff, l[i].wrapping_add(1), l[i].wrapping_sub(1)] { let mut a = l; a[i] = v; w.push((a, "l_one_byte")); } }
+        for (d, fam) in &w { hs_case(o, d, fam); }
+        // as_scalar of a Hash that came out of another constructor (from_slice, hex with and without 0x, FromStr, consensus decoding, From<[u8;32]>)
+        let ctors = ["slice", "hex", "hex0x", "str", "dec", "from"];
+        let n_ct = if thorough { w.len() } else { 120 };
+        for j in 0..n_ct { let (d, _) = w[if thorough { j } else { rng.below(w.len() as u64) as usize }]; let c = ctors[j % ctors.len()]; o.stat(&format!("hs.ctor.{}", c)); o.op(format!("c17_hs_ctor {} {}", c, hex(&d)), le_ge(&d, &l)); }
+        for c in ctors { for d in [l, [0xffu8; 32], le_sub(&l, &one), top] { o.stat(&format!("hs.ctor.{}", c)); o.op(format!("c17_hs_ctor {} {}", c, hex(&d)), true); } }
+    }
+    // (7) pairs of DIFFERENT messages of EQUAL length > 256 with a long common prefix, hashed back to back A, B, A (a memo keyed
+    // on the length and the first bytes, a scratch buffer that is only partly refreshed): digests must differ and follow the bytes
+    {
+        let n_pairs = if thorough { 1500 } else { 36 };
+        for it in 0..n_pairs {
+            let len = match it % 6 { 0 => 257, 1 => *rng.pick(&[272usize, 408, 1088, 4080]), 2 => rng.range(258, 600) as usize, 3 => *rng.pick(&[271usize, 407, 543, 1087]), _ => rng.range(300, 9000) as usize };
+            let a = content(&mut rng, len);
+            let mut b = a.clone();
+            let pos = match rng.below(5) { 0 => len - 1, 1 => 256, 2 => len - 1 - rng.below(8) as usize, 3 => rng.range(256, len as u64 - 1) as usize, _ => len - (len % 136) - if len % 136 == 0 { 136 } else { 0 } };
+            let pos = pos.min(len - 1).max(256);
+            if rng.chance(1, 2) { b[pos] ^= 1 << rng.below(8); } else { b[pos] = b[pos].wrapping_add(1 + rng.below(255) as u8); }
+            o.stat("keccak.prefix_pair"); o.stat(&format!("keccak.prefix_pair.diff_at={}", if pos == len - 1 { "last" } else if pos == 256 { "256" } else { "inner" }));
+            let with_scalar = it % 3 == 0;
+            msg_case(o, &a, "prefix_pair.a", with_scalar); msg_case(o, &b, "prefix_pair.b", with_scalar); msg_case(o, &a, "prefix_pair.a_again", false);
+            let (da, db) = (keccak_256(&a), keccak_256(&b));
+            o.direct(da != db, "c17: two different messages of equal length sharing a prefix of >= 256 bytes have different digests", format!("c17_keccak {}", hex(&b)), hex(&db), format!("not {}", hex(&da)));
+        }
+    }
+    // (8) shaped contents at the lengths the library itself hashes: 32 (a key / a scalar / a hash), 33..41 (derivation || varint index),
+    // 64 (two hashes, `hash_concat`), 65 / 73 (address checksum bodies), 8-byte aligned zero tails
+    {
+        use curve25519_dalek::constants::ED25519_BASEPOINT_POINT as G;
+        let pt = |rng: &mut Rng| (Scalar::from_bytes_mod_order(rng.arr32()) * G).compress().to_bytes();
+        let sc = |rng: &mut Rng| Scalar::from_bytes_mod_order(rng.arr32()).to_bytes();
+        let mut identity = [0u8; 32]; identity[0] = 1;
+        let mut shaped: Vec<Vec<u8>> = vec![vec![0u8; 32], vec![0xffu8; 32], l.to_vec(), le_sub(&l, &one).to_vec(), identity.to_vec(), G.compress().to_bytes().to_vec(), one.to_vec()];
+        for _ in 0..(if thorough { 200 } else { 6 }) {
+            let (p1, p2, s1, s2) = (pt(&mut rng), pt(&mut rng), sc(&mut rng), sc(&mut rng));
+            shaped.push(p1.to_vec()); shaped.push(s1.to_vec());
+            shaped.push([&p1[..], &p2[..]].concat()); shaped.push([&s1[..], &s2[..]].concat()); shaped.push([&keccak_256(&p1)[..], &keccak_256(&p2)[..]].concat()); shaped.push([&p1[..], &s1[..]].concat());
+            let idx = rng.u64_boundary(); shaped.push([&p1[..], &crate::gen::varint_bytes(idx)[..]].concat()); shaped.push([&p1[..], &[0u8][..]].concat());
+            let net = *rng.pick(&[18u8, 19, 42, 53, 54, 63, 24, 25, 36]);
+            shaped.push([&[net][..], &p1[..], &p2[..]].concat()); shaped.push([&[net][..], &p1[..], &p2[..], &rng.bytes(8)[..]].concat());
+            shaped.push([&b"SubAddr\0"[..], &s1[..], &(rng.next() as u32).to_le_bytes()[..], &(rng.next() as u32).to_le_bytes()[..]].concat());
+            let n8 = 8 * rng.range(1, 40) as usize; let mut z = rng.bytes(n8); let cut = rng.below(n8 as u64 / 8) as usize * 8; for x in z[cut..].iter_mut() { *x = 0; } shaped.push(z);
+        }
+        shaped.push(vec![0u8; 64]); shaped.push(vec![0xffu8; 64]); shaped.push(vec![0u8; 65]); shaped.push(vec![0xffu8; 65]); shaped.push(vec![0u8; 73]); shaped.push([&l[..], &l[..]].concat());
+        for m in &shaped { o.stat(&format!("keccak.shaped.len={}", match m.len() { 32 => "32", 64 => "64", 65 => "65", 73 => "73", 33..=42 => "33..42", _ => "other" })); msg_case(o, m, "shaped", true); }
+    }
+    // (9) `Hashable::hash_to_scalar` (provided method) on Transaction / TransactionPrefix / RctSigBase values: every shape of the
+    // deterministic sweep is too many for the quick tier; a seed-dependent sample of it plus random shapes
+    {
+        use monero::consensus::encode::serialize; use monero::cryptonote::hash::Hashable;
+        let sweep = crate::gen::sweep_shapes();
+        let n_tx = if thorough { sweep.len() + 1500 } else { 150 };
+        for it in 0..n_tx {
+            let s = if thorough && it < sweep.len() { sweep[it].clone() } else if it % 2 == 0 { sweep[rng.below(sweep.len() as u64) as usize].clone() } else { let mut s = crate::gen::shape(&mut rng); s.rct = crate::gen::RCT_TYPES[it % 7]; s };
+            let tx = crate::gen::tx_of(&mut rng, &s);
+            o.stat(&format!("trait_hs_tx.v{}.{}", s.version, if tx.rct_signatures.sig.is_some() { "with_sig_base" } else { "no_sig_base" }));
+            let res = o.op(format!("c17_trait_hs_tx {}", hex(&serialize(&tx))), true);
+            // on the value itself (not re-parsed): the provided method is `as_scalar` of the value's own hash
+            o.direct(tx.hash_to_scalar() == tx.hash().as_scalar() && tx.prefix.hash_to_scalar() == tx.prefix.hash().as_scalar()
+                && tx.rct_signatures.sig.as_ref().map(|b| b.hash_to_scalar() == b.hash().as_scalar()).unwrap_or(true),
+                "c17: x.hash_to_scalar() == x.hash().as_scalar() for Transaction / TransactionPrefix / RctSigBase", format!("c17_trait_hs_tx {}", hex(&serialize(&tx))), res, "equal".into());
+            let w = mod_l_by_subtraction(&tx.hash().0);
+            o.direct(tx.hash_to_scalar().to_bytes() == w, "c17: Transaction::hash_to_scalar == tx.hash() mod l (by subtraction)", format!("c17_trait_hs_tx {}", hex(&serialize(&tx))), hex(&tx.hash_to_scalar().to_bytes()), hex(&w));
+        }
+    }
+    // (10) messages far beyond 10 kB: around 64 KiB (16-bit counters, staging buffers), 128 / 256 KiB, 2048 blocks of 136 bytes,
+    // 300 000, 1 MiB; zero / 0xff / random / padding-like contents; a back-to-back pair differing in the last byte only
+    {
+        let mut lens: Vec<(usize, bool)> = vec![(65_535, false), (65_536, true), (65_537, false), (65_551, false), (65_552, false), (65_553, false),
+            (278_527, false), (278_528, true), (278_529, false), (300_000, true), (131_072, false), (262_144, false), (1_048_576, false)];
+        let opt = [65_671usize, 65_673, 65_807, 65_809, 131_072 + 135, 131_071, 150_000, 262_143, 262_145, 1_048_575, 1_048_577, 1_048_560, 1_048_559, 1_048_561, 16_777_216 / 16];
+        if thorough { for x in opt { lens.push((x, x % 2 == 0)); } for _ in 0..40 { lens.push((rng.range(10_241, 400_000) as usize, rng.chance(1, 4))); } lens.push((2_097_152 + 77, true)); }
+        else { for _ in 0..3 { lens.push((*rng.pick(&opt), false)); } lens.push((rng.range(10_241, 70_000) as usize, false)); lens.push((rng.range(70_000, 300_000) as usize, false)); lens.push((*rng.pick(&[1_048_575usize, 1_048_577, 1_048_560, 1_048_712, 1_048_576 + 65_536]), false)); }
+        for (len, ws) in lens {
+            o.stat(&format!("keccak.huge.{}", match len { 0..=60_000 => "10k..60k", 60_001..=70_000 => "~64KiB", 70_001..=270_000 => "70k..270k", 270_001..=310_000 => "272KiB..300k", _ => ">=1MiB" }));
+            let m = content(&mut rng, len); msg_case(o, &m, "huge", ws);
+        }
+        for len in [65_536usize, 278_528] { let a = rng.bytes(len); let mut b = a.clone(); b[len - 1] ^= 0x01; o.stat("keccak.huge.pair"); msg_case(o, &a, "huge.pair", false); msg_case(o, &b, "huge.pair", false);
+            o.direct(keccak_256(&a) != keccak_256(&b), "c17: two different messages of equal length sharing a prefix of >= 256 bytes have different digests", format!("c17_keccak {}", hex(&b)), hex(&keccak_256(&b)), "a different digest".into()); }
+    }
     // (6) wrong-length digests are not scalars (harness convention: err on both sides)
     for len in [0usize, 1, 31, 33, 64] { let d = rng.bytes(len); o.stat("hs.badlen"); o.op(format!("c17_hs {}", hex(&d)), false); }
     o.notes.push("nontrivial rule: every keccak / hash_to_scalar case; hs cases whose little-endian value is >= l (a reduction takes place)".into());
-    o.notes.push("direct checks: keccak_256 vs tiny-keccak fed in two pieces; as_scalar vs Scalar::from_bytes_mod_order and vs repeated subtraction of l".into());
+    o.notes.push("added families: digests l..l+256, l+2^k, 2^252+2^k up to 2^252+2^128, random members of [l, 2^252+2^128], k*l-1..k*l+1 (k=1..15), 2^k-1..2^k+1 (k=0..255), single-byte boundary patterns; as_scalar after from_slice/from_hex/FromStr/consensus_decode/From; A,B,A message pairs of equal length > 256 with a common prefix; shaped 32/33..42/64/65/73-byte messages (points, scalars, l, hash pairs, address bodies); Hashable::hash_to_scalar on Transaction/TransactionPrefix/RctSigBase; message lengths 64 KiB .. 1 MiB".into());
+    o.notes.push("direct checks: keccak_256 vs tiny-keccak fed in two pieces; keccak_256 vs a table-free Keccak written from the specification; as_scalar vs Scalar::from_bytes_mod_order and vs repeated subtraction of l".into());
 }
